@@ -117,6 +117,11 @@ func valueErrorTypes(v ssa.Value, depth int, out map[string]bool, seen map[ssa.V
 	case *ssa.ChangeInterface:
 		valueErrorTypes(x.X, depth, out, seen)
 	case *ssa.Phi:
+		// inside a path exploration the path knows which value the phi carries (result := ...; return result)
+		if w := core.PathValue(x); w != ssa.Value(x) {
+			valueErrorTypes(w, depth, out, seen)
+			return
+		}
 		for _, e := range x.Edges {
 			valueErrorTypes(e, depth, out, seen)
 		}
@@ -407,7 +412,7 @@ func runC01(c *core.Ctx) {
 				continue
 			}
 			// a return that forwards the write-back's own result is behind it by construction
-			if path, reached := core.Reach(fn, nil, isTarget(ret), nil, isWB); reached {
+			if path, reached := core.Reach(fn, nil, successReturn(ret, 0), nil, isWB); reached {
 				okAll = false
 				wpath = p.Witness(path)
 			}
